@@ -37,6 +37,8 @@ type Engine struct {
 	monitors      []*Monitor
 	droppedCand   map[string]map[string]bool
 	mutableGlobal map[*ssa.Global]bool
+	views         map[string]map[string]*Contract
+	viewList      []*Contract
 	initStored    map[*ssa.Global]bool
 	initAlloc     map[*ssa.Global]bool
 	funcs         map[string]*ssa.Function
